@@ -410,42 +410,38 @@ def c16_3(ctx: Ctx) -> RuleResult:
 @rule(P)
 def c16_4(ctx: Ctx) -> RuleResult:
     res = RuleResult("C16.4", "TERM", "samplers are invoked in order of first appearance in gradient.samplers (fixed draw order)")
-    f = None
-    for g in ctx.repo.funcs_in("ropt.ensemble_evaluator._gradient"):
-        if any(isinstance(c.func, ast.Attribute) and c.func.attr == "generate_samples" for c in calls_in(g)):
-            f = g
-    if f is None:
+    fs = [g for g in ctx.repo.funcs_in("ropt.ensemble_evaluator._gradient")
+          if any(isinstance(c.func, ast.Attribute) and c.func.attr == "generate_samples" for c in calls_in(g))]
+    if not fs:
         raise AnalysisError("the function invoking generate_samples was not found")
     X = ctx.X
-    calls = [c for c in calls_in(f) if isinstance(c.func, ast.Attribute) and c.func.attr == "generate_samples"]
-    idx_terms = []
-    for c in calls:
-        t = X.at(f, c.func)
-        recv = t[1]
-        if recv[0] == "sub":
-            idx_terms.append((c, recv[2]))
-    ok_any = False
-    for c, it in idx_terms:
-        # index derives from unique[argsort(first-appearance indices)]
-        good = False
-        for _g, s in deep_subterms(ctx, f, it):
-            if s[0] == "sub" and s[2][0] == "call" and s[2][1] == ("global", "numpy.argsort"):
-                base, arg = s[1], s[2][2][0]
-                if base[0] == "item" and base[2] == 0 and arg[0] == "item" and arg[2] == 1 and base[1] == arg[1]:
-                    u = base[1]
-                    if u[0] == "call" and u[1] == ("global", "numpy.unique") and any(k == "return_index" and v == ("const", True) for k, v in u[3]):
-                        good = "samplers" in show(u)
-        if it[0] == "const":
-            continue
-        ok_any = ok_any or good
-        res.add(f, c, "the sampler index comes from unique(samplers, return_index=True) re-ordered by argsort of the first-appearance indices", good,
-                "" if good else f"sampler order is `{show(it, 100)}`: not the order of first appearance", construct=f"{f.name}: sampler order {norm_stmt(c)[:50]}")
-    # loop over the remaining samplers preserves that order
-    loops = [n for n in nodes_in(f, ast.For)]
-    for lp in loops:
-        it = X.at(f, lp.iter)
-        ok = it[0] == "sub" and it[2][0] == "slice" and it[2][1] == ("const", 1)
-        res.add(f, lp, "the remaining samplers are visited by a forward slice [1:] of the ordered indices", ok,
-                "" if ok else f"loop iterates `{show(it, 80)}`", construct=f"{f.name}: loop over ordered samplers")
+    for f in fs:
+        calls = [c for c in calls_in(f) if isinstance(c.func, ast.Attribute) and c.func.attr == "generate_samples"]
+        idx_terms = []
+        for c in calls:
+            t = X.at(f, c.func)
+            recv = t[1]
+            if recv[0] == "sub":
+                idx_terms.append((c, recv[2]))
+        for c, it in idx_terms:
+            # index derives from unique[argsort(first-appearance indices)]
+            good = False
+            for _g, s in deep_subterms(ctx, f, it):
+                if s[0] == "sub" and s[2][0] == "call" and s[2][1] == ("global", "numpy.argsort"):
+                    base, arg = s[1], s[2][2][0]
+                    if base[0] == "item" and base[2] == 0 and arg[0] == "item" and arg[2] == 1 and base[1] == arg[1]:
+                        u = base[1]
+                        if u[0] == "call" and u[1] == ("global", "numpy.unique") and any(k == "return_index" and v == ("const", True) for k, v in u[3]):
+                            good = any(y[0] == "attr" and y[2] == "samplers" for _h, y in deep_subterms(ctx, _g, u, 3))
+            if it[0] == "const":
+                continue
+            res.add(f, c, "the sampler index comes from unique(samplers, return_index=True) re-ordered by argsort of the first-appearance indices", good,
+                    "" if good else f"sampler order is `{show(it, 100)}`: not the order of first appearance", construct=f"{f.name}: sampler order {norm_stmt(c)[:50]}")
+        # loop over the remaining samplers preserves that order
+        for lp in [n for n in nodes_in(f, ast.For) if any(isinstance(x, ast.Call) and isinstance(x.func, ast.Attribute) and x.func.attr == "generate_samples" for x in ast.walk(n))]:
+            it = X.at(f, lp.iter)
+            ok = it[0] == "sub" and it[2][0] == "slice" and it[2][1] == ("const", 1)
+            res.add(f, lp, "the remaining samplers are visited by a forward slice [1:] of the ordered indices", ok,
+                    "" if ok else f"loop iterates `{show(it, 80)}`", construct=f"{f.name}: loop over ordered samplers")
     res.floor = 2
     return res
